@@ -195,6 +195,25 @@ Example C04_sched_batched_step_example :
   | _, _ => False
   end.
 Proof. exact b_step_example. Qed.
+Example C04_sched_jssp_batched_step_example :
+  match jssp_run true ex_i (reset ex_i) [1; 2; 1] with
+  | Some sd =>
+      done sd = true /\
+      jssp_b_step true 2 [ {| r_i := ex_i; r_s := reset ex_i; r_a := 2 |}; {| r_i := ex_i; r_s := sd; r_a := 0 |} ]
+      = Some [ match jssp_step true ex_i (reset ex_i) 2 with Some x => x | None => sd end; sd ]
+  | None => False
+  end.
+Proof. exact jssp_b_step_example. Qed.
+Example C04_sched_ffsp_batched_step_example :
+  match FFSP.run FFSP.ex_i (FFSP.reset FFSP.ex_i) FFSP.ex_acts with
+  | Some sd =>
+      FFSP.done sd = true /\ nth 3 (FFSP.mask sd) false = true /\
+      ffsp_b_step [ {| fr_i := FFSP.ex_i; fr_s := FFSP.reset FFSP.ex_i; fr_a := 1 |}; {| fr_i := FFSP.ex_i; fr_s := sd; fr_a := 3 |} ]
+      = Some [ match FFSP.step FFSP.ex_i (FFSP.reset FFSP.ex_i) 1 with Some x => x | None => sd end;
+               match FFSP.step FFSP.ex_i sd 3 with Some x => x | None => sd end ]
+  | None => False
+  end.
+Proof. exact ffsp_b_step_example. Qed.
 Example C04_sched_job_op_view_example :
   b_view (-1)%Z [(ex_i, [7; 8; 9; 0]%Z)] = [[[7; 8]; [9; -1]]]%Z.
 Proof. vm_compute. reflexivity. Qed.
